@@ -1,4 +1,5 @@
 """C13 deductive tier: definite-assignment and frame (ownership) obligations, see pv/vc/frames.py."""
+import ast
 import time
 from ..deductive import FunctionReport
 from ..vc import frames
@@ -17,6 +18,36 @@ OWNERSHIP = [(INF, 'FactoredInference.estimate'), (INF, 'FactoredInference.fix_m
              (GM, 'GraphicalModel.belief_propagation'), (GM, 'GraphicalModel.mle'), (GM, 'GraphicalModel.project'),
              (GM, 'GraphicalModel.synthetic_data'), (GM, 'variable_elimination_logspace'), (GM, 'GraphicalModel.calculate_many_marginals'),
              ('src/mbi/clique_vector.py', 'CliqueVector.combine'), ('src/mbi/factor.py', 'Factor.active')]
+
+F, CV = 'src/mbi/factor.py', 'src/mbi/clique_vector.py'
+# callee half of the allocator contract used at call sites of the functions above: (file, function, kind) — see frames.ReturnsFresh
+RETURNS_FRESH = [(F, 'Factor.project', 'fresh'), (F, 'Factor.sum', 'fresh'), (F, 'Factor.logsumexp', 'fresh'), (F, 'Factor.copy', 'fresh'),
+                 (F, 'Factor.exp', 'fresh'), (F, 'Factor.log', 'fresh'), (F, 'Factor.expand', 'fresh'), (F, 'Factor.transpose', 'alias'),
+                 (F, 'Factor.datavector', 'alias'), (F, 'Factor.zeros', 'fresh'), (F, 'Factor.ones', 'fresh'), (F, 'Factor.uniform', 'fresh'),
+                 (F, 'Factor.random', 'fresh'), (F, 'Factor.active', 'fresh'),
+                 (GM, 'GraphicalModel.project', 'fresh'), (GM, 'GraphicalModel.belief_propagation', 'fresh'), (GM, 'GraphicalModel.mle', 'fresh'),
+                 (GM, 'variable_elimination_logspace', 'fresh'),
+                 (CV, 'CliqueVector.exp', 'fresh'), (CV, 'CliqueVector.log', 'fresh'), (CV, 'CliqueVector.zeros', 'fresh'),
+                 (CV, 'CliqueVector.ones', 'fresh'), (CV, 'CliqueVector.uniform', 'fresh'), (CV, 'CliqueVector.random', 'fresh')]
+
+
+def returns_fresh_reports(items):
+    reps = []
+    for rel, q, kind in items:
+        t0 = time.time()
+        r = FunctionReport(rel, q + ' [returns-%s]' % kind)
+        try:
+            rf = frames.ReturnsFresh(rel, q, kind)
+            r.obligations = rf.run()
+            r.sha = rf.sha
+        except frontend.MissingAnchor as e:
+            r.undecided = 'anchor missing: %s' % e
+        except RecursionError:
+            r.undecided = 'ownership analysis did not terminate'
+        r.seconds = time.time() - t0
+        r.vacuity = []
+        reps.append(r)
+    return reps
 
 
 def run(tier):
@@ -47,4 +78,20 @@ def run(tier):
         r.seconds = time.time() - t0
         r.vacuity = []
         reps.append(r)
-    return reps
+    t0 = time.time()
+    r = FunctionReport(INF, 'FactoredInference._setup [the model handed to the caller is a new object in every call]')
+    try:
+        ef = frames.EscapesFresh(INF, 'FactoredInference._setup', ('model',))
+        r.obligations = ef.run()
+        r.sha = ef.sha
+        # no other method may re-bind self.model
+        cls, _, _ = frontend.get_function(INF, 'FactoredInference')
+        others = [(f.name, n.lineno) for f in cls.body if isinstance(f, ast.FunctionDef) and f.name not in ('_setup',)
+                  for n in ast.walk(f) if isinstance(n, ast.Assign) for t in n.targets if frames.self_attr(t) and t.attr == 'model']
+        ef.ob('only-_setup-binds-self.model', not others, dict(other_bindings=others))
+    except frontend.MissingAnchor as e:
+        r.undecided = 'anchor missing: %s' % e
+    r.seconds = time.time() - t0
+    r.vacuity = []
+    reps.append(r)
+    return reps + returns_fresh_reports(RETURNS_FRESH)
